@@ -16,7 +16,10 @@
 (*                                    the harvested stream after a rescan of *)
 (*                                    its bytes; applyerr = index at which   *)
 (*                                    State.ApplyOperator refused reread \o  *)
-(*                                    closing (0: none, and CanClose held)   *)
+(*                                    closing (0: none, and CanClose held);  *)
+(*                                    seglens / rereadlens = calls made /    *)
+(*                                    operators re-read per segment handed   *)
+(*                                    out by Harvest or Build                *)
 (* "fmt"/"scan" records are accepted iff RefScanOps(bytes) denotes the       *)
 (* operators; "builder" records iff the Nesting model explains them and the  *)
 (* re-read stream followed by its closing operators is balanced.             *)
@@ -44,8 +47,11 @@ BuilderOK(c) ==
           /\ final.obj # "err"
           /\ c.closeok = NestCanClose(final)
           /\ c.closing = NestClosing(final)
-          \* the stream that was written is the calls that were made
+          \* the stream that was written is the calls that were made, segment
+          \* by segment when it was handed out in several segments (the judged
+          \* stream is their concatenation in order)
           /\ CallsOf(c.reread) = calls
+          /\ Has(c, "seglens") => c.seglens = c.rereadlens
           \* and, with its closing operators, a balanced operator sequence
           /\ c.applyerr = 0
           /\ NestCanClose(NestRunG(NestInit(c.pre2), CallsOf(c.reread) \o c.closing, FALSE))
